@@ -12,7 +12,9 @@
    dependency itself):
      sha    crypto/sha256.Sum256                    (url -> 32 bytes)
      dec    encoding/json.Unmarshal into the entry  (content -> (base, delta) | error)
-     parse  crypto/x509.ParseRevocationList         (DER -> NextUpdate | error)
+     parse  crypto/x509.ParseRevocationList         (bytes -> (Raw, NextUpdate) | error;
+                                                     Raw is the first DER element of the
+                                                     input: the parser ignores what follows it)
    Modelled concretely: encoding/hex, the entry encoder (json.Marshal of
    fileCacheContent = fixed JSON text + standard base64), the control flow.   *)
 From NV Require Import Base.
@@ -106,9 +108,11 @@ Definition norm (d : option string) : option string :=
 
 (* ---------- types of the model ---------- *)
 
-(* x509.ParseRevocationList on some bytes: error, or the NextUpdate of the list
-   (None = the zero time; otherwise milliseconds on the harness clock) *)
-Inductive crlfact := PErr | POk (nu : option Z).
+(* x509.ParseRevocationList on some bytes: error, or the Raw and the NextUpdate
+   of the list (None = the zero time; otherwise milliseconds on the harness
+   clock). Raw is the input itself when the input is exactly one DER element
+   (always the case for the Raw of a list that came out of the parser). *)
+Inductive crlfact := PErr | POk (raw : string) (nu : option Z).
 
 Inductive res :=
 | RHit (b : string) (d : option string)  (* Get: bundle; Raw of base, Raw of delta *)
@@ -160,23 +164,23 @@ Section Cache.
   Definition get_entry (b : string) (d : option string) (t : Z) : res :=
     match parse b with
     | PErr => RErr 3
-    | POk nb =>
+    | POk rb nb =>
         match d with
         | None =>
             match check_expiry t nb 5 1 with
             | Some r => r
-            | None => RHit b None
+            | None => RHit rb None
             end
         | Some dd =>
             match parse dd with
             | PErr => RErr 4
-            | POk nd =>
+            | POk rd nd =>
                 match check_expiry t nb 5 1 with
                 | Some r => r
                 | None =>
                     match check_expiry t nd 6 2 with
                     | Some r => r
-                    | None => RHit b (Some dd)
+                    | None => RHit rb (Some rd)
                     end
                 end
             end
@@ -277,12 +281,12 @@ Section Cache.
 
   (* ---------- the boolean oracle, on observed results ---------- *)
   (* state of one CRL at time t: 0 does not parse, 1 NextUpdate zero,
-     2 NextUpdate passed, 3 fresh *)
-  Definition part_state (t : Z) (x : string) : N :=
+     2 NextUpdate passed, 3 fresh; and the bytes a bundle carries for it *)
+  Definition part_state (t : Z) (x : string) : N * string :=
     match parse x with
-    | PErr => 0
-    | POk None => 1
-    | POk (Some nu) => if (t >? nu)%Z then 2 else 3
+    | PErr => (0%N, "")
+    | POk r None => (1%N, r)
+    | POk r (Some nu) => (if (t >? nu)%Z then 2%N else 3%N, r)
     end.
 
   Definition opt_str_eqb (a b : option string) : bool := opt_eqb String.eqb a b.
@@ -290,12 +294,19 @@ Section Cache.
   Definition is_err (r : res) : bool := match r with RErr _ => true | _ => false end.
   Definition is_miss (r : res) : bool := match r with RMiss _ => true | _ => false end.
 
+  (* what a Get may answer when the url holds the entry (b, d): a bundle with
+     exactly the bytes of both parts iff both are fresh; an error if a part
+     does not parse; otherwise a miss only if a part has expired and an error
+     only if a NextUpdate is zero *)
   Definition entry_ok (b : string) (d : option string) (t : Z) (r : res) : bool :=
-    let pb := part_state t b in
-    let pd := match d with None => 3%N | Some x => part_state t x end in
+    let '(pb, rb) := part_state t b in
+    let '(pd, rd) := match d with
+                     | None => (3%N, None)
+                     | Some x => let '(p, r) := part_state t x in (p, Some r)
+                     end in
     if ((pb =? 3) && (pd =? 3))%N then
       match r with
-      | RHit b' d' => String.eqb b' b && opt_str_eqb d' d
+      | RHit b' d' => String.eqb b' rb && opt_str_eqb d' rd
       | _ => false
       end
     else if ((pb =? 0) || (pd =? 0))%N then is_err r
@@ -368,7 +379,7 @@ End Cache.
 
 (* ---------- cases: the external functions are tables ---------- *)
 Record input := mk_input {
-  i_sha : list (string * string);                          (* url -> SHA-256 digest *)
+  i_sha : list (string * string);                          (* url -> SHA-256 digest (the urls of the history) *)
   i_dec : list (string * option (string * option string)); (* file content -> decoded entry *)
   i_parse : list (string * crlfact);                       (* bytes -> ParseRevocationList *)
   i_ops : list op }.
@@ -392,8 +403,15 @@ Definition model (i : input) : obs :=
   mk_obs rs (map (join root) ws) f [] true.
 
 (* ---------- the input contract ---------- *)
+Fixpoint dedup (us : list string) : list string :=
+  match us with
+  | [] => []
+  | u :: us' => let r := dedup us' in if mem_str u r then r else u :: r
+  end.
+
 Definition inj_b (sha : string -> string) (us : list string) : bool :=
-  forallb (fun u => forallb (fun v => implb (String.eqb (sha u) (sha v)) (String.eqb u v)) us) us.
+  let ps := map (fun u => (u, sha u)) (dedup us) in
+  forallb (fun p => forallb (fun q => if String.eqb (snd p) (snd q) then String.eqb (fst p) (fst q) else true) ps) ps.
 
 Definition dec_res_eqb (a b : option (string * option string)) : bool :=
   opt_eqb (fun x y => String.eqb (fst x) (fst y) && opt_str_eqb (snd x) (snd y)) a b.
@@ -409,14 +427,14 @@ Definition roundtrip_b (dec : string -> option (string * option string)) (ops : 
    bytes; encoding/json decodes what it encoded. *)
 Definition wf (i : input) : bool :=
   inj_b (tab_sha i) (urls (i_ops i))
-  && forallb (fun u => (String.length (tab_sha i u) =? 32)%nat) (urls (i_ops i))
+  && forallb (fun u => (String.length (tab_sha i u) =? 32)%nat) (dedup (urls (i_ops i)))
   && roundtrip_b (tab_dec i) (i_ops i).
 
 (* ---------- the property oracle on what the implementation did ---------- *)
 Definition spec_ok (i : input) (o : obs) : bool :=
   match check (tab_dec i) (tab_parse i) sempty (i_ops i) (o_res o) with
   | None => false
-  | Some s => files_ok (tab_sha i) (tab_dec i) s (urls (i_ops i)) (o_files o)
+  | Some s => files_ok (tab_sha i) (tab_dec i) s (dedup (urls (i_ops i))) (o_files o)
   end
   && list_eqb String.eqb (o_writes o) (expected_writes (tab_sha i) (i_ops i))
   && match o_outside o with [] => true | _ => false end
